@@ -60,6 +60,7 @@ pub fn core_side_metadata_specs() -> Vec<SideMetadataSpec> {
         COMPRESSOR_MARK,
         COMPRESSOR_OFFSET_VECTOR,
     ]
+}
 
 /// Side-metadata hooks for the `side` component (C20–C22).
 pub mod side {
@@ -141,5 +142,4 @@ pub mod side {
         });
         (r, v)
     }
-
 }
